@@ -14,6 +14,7 @@ from typing import (
 
 from pandera import errors
 from pandera.api.base.checks import BaseCheck, CheckResult
+from pandera.api.function_dispatch import Dispatcher
 
 T = TypeVar("T")
 
@@ -225,7 +226,11 @@ class Check(BaseCheck):
 
             ``failure_cases``: subset of the check_object that failed.
         """
-        if self.name is not None and self.is_builtin_check(self.name):
+        if (
+            self.name is not None
+            and isinstance(self._check_fn, Dispatcher)
+            and self.is_builtin_check(self.name)
+        ):
             # we need to reload the function here in case additional
             # type signatures have been registered for a specific built-in
             # check.
